@@ -256,6 +256,7 @@ func ruleDispatch(c *Ctx) {
 		b.operationOrderObligation(l, ai)
 		if b.Name == "v5" {
 			b.emptyPathIsRoot(l, ai)
+			b.oneOperationPerStep(l, ai)
 		}
 		// (a) case set and handlers
 		var got []string
